@@ -55,10 +55,20 @@ async fn install_api_session(app: &Arc<rnacos::common::appdata::AppShareData>, s
         CacheValue::ApiTokenSession(Arc::new(session)),
         ttl,
     ));
+    let key = CacheKey::new(CacheType::ApiTokenSession, Arc::new(s["token"].as_str().unwrap_or("").to_owned()));
     let mut tries = 0;
     loop {
         match app.raft_request_route.request(ClientRequest::CacheReq { req: req.clone() }).await {
-            Ok(_) => return Ok(()),
+            Ok(_) => {
+                if ttl <= 2 || super::node::cache_has(app, &key).await {
+                    return Ok(());
+                }
+                tries += 1;
+                if tries > 20 {
+                    return Err("session not readable after installation".to_owned());
+                }
+                tokio::time::sleep(std::time::Duration::from_millis(200)).await;
+            }
             Err(e) => {
                 tries += 1;
                 if tries > 20 {
